@@ -15,46 +15,34 @@ package guts_cli
 //@ ghost var grpagesize mapto[int,int]
 //@ ghost var grflags mapto[int,int]
 //@ ghost var grsequence mapto[int,int]
-// what the most recent WritePage wrote
-//@ ghost var gwpath string
-//@ ghost var gwpageid int
-//@ ghost var gwtxid int
-//@ ghost var gwroot int
-//@ ghost var gwfreelist int
-//@ ghost var gwpgid int
-//@ ghost var gwmagic int
-//@ ghost var gwversion int
-//@ ghost var gwpagesize int
-//@ ghost var gwflags int
-//@ ghost var gwsequence int
-//@ ghost var gwsumok bool
-//@ ghost var gwlen int
+//@ ghost var lastps int       -- page size found by the most recent ReadPageAndHWMSize
 
 //@ func ReadPageAndHWMSize
 //@   opaque
 //@   returns (pageSize, hwm, err)
-//@   ensures err == nil ==> pageSize >= 512 && pageSize <= 16777216
+//@   ensures err == nil ==> pageSize >= 512 && pageSize <= 16777216 && lastps == pageSize
 //@   ensures fwcount == old(fwcount)
-//@   modifies osopenpath, osopenflag, all("os.File.gpath"), all("os.File.gflag")
+//@   modifies lastps, osopenpath, osopenflag, all("os.File.gpath"), all("os.File.gflag")
 
 //@ func ReadPage
 //@   opaque
 //@   returns (p, buf, err)
-//@   ensures err == nil ==> p != nil && p == pageat(buf) && p.id == pageID && interior(p)
+//@   ensures err == nil ==> p != nil && p == pageat(buf) && p.id == pageID && interior(p) && len(buf) >= 512
 //@   ensures err == nil ==> (let m := metaof(p) in grtxid[pageID] == m.txid && grroot[pageID] == m.root.root && grsequence[pageID] == m.root.sequence && grfreelist[pageID] == m.freelist && grpgid[pageID] == m.pgid && grmagic[pageID] == m.magic && grversion[pageID] == m.version && grpagesize[pageID] == m.pageSize && grflags[pageID] == m.flags)
 //@   ensures forall j int :: j != pageID ==> grtxid[j] == old(grtxid[j]) && grroot[j] == old(grroot[j]) && grsequence[j] == old(grsequence[j]) && grfreelist[j] == old(grfreelist[j]) && grpgid[j] == old(grpgid[j]) && grmagic[j] == old(grmagic[j]) && grversion[j] == old(grversion[j]) && grpagesize[j] == old(grpagesize[j]) && grflags[j] == old(grflags[j])
 //@   ensures fwcount == old(fwcount)
-//@   modifies grtxid, grroot, grsequence, grfreelist, grpgid, grmagic, grversion, grpagesize, grflags, osopenpath, osopenflag, all("os.File.gpath"), all("os.File.gflag")
+//@   modifies lastps, grtxid, grroot, grsequence, grfreelist, grpgid, grmagic, grversion, grpagesize, grflags, osopenpath, osopenflag, all("os.File.gpath"), all("os.File.gflag")
 
 //@ func WritePage
 //@   returns (err)
 //@   props C20
 //@   requires len(pageBuf) >= 16
 //@   ensures [once] fwcount <= old(fwcount) + 1
-//@   ensures [target] fwcount == old(fwcount) + 1 ==> fwpath == path && fwlen == len(pageBuf) && gwlen == len(pageBuf)
+//@   ensures [target] fwcount == old(fwcount) + 1 ==> fwpath == path && fwlen == len(pageBuf) && osopenflag == 1      -- O_WRONLY
 //@   ensures [success] err == nil ==> fwcount == old(fwcount) + 1
-//@   ensures [snapshot] fwcount == old(fwcount) + 1 ==> (let m := metaof(pageat(pageBuf)) in gwpath == path && gwpageid == pageat(pageBuf).id && gwtxid == m.txid && gwroot == m.root.root && gwsequence == m.root.sequence && gwfreelist == m.freelist && gwpgid == m.pgid && gwmagic == m.magic && gwversion == m.version && gwpagesize == m.pageSize && gwflags == m.flags && gwsumok == (m.checksum == msum(m)))
-//@   ensures [offset] fwcount == old(fwcount) + 1 ==> exists ps int :: ps >= 512 && fwoff == pageat(pageBuf).id * ps && fwlen == ps * (pageat(pageBuf).overflow + 1)
+//@   ensures [snapshot] fwcount == old(fwcount) + 1 ==> (let m := metaof(pageat(pageBuf)) in fwpageid == pageat(pageBuf).id && fwtxid == m.txid && fwroot == m.root.root && fwsequence == m.root.sequence && fwfreelist == m.freelist && fwpgid == m.pgid && fwmagic == m.magic && fwversion == m.version && fwpagesize == m.pageSize && fwflags == m.flags && fwsumok == (m.checksum == msum(m)))
+//@   ensures [offset] fwcount == old(fwcount) + 1 ==> fwoff == pageat(pageBuf).id * lastps && fwlen == lastps * (pageat(pageBuf).overflow + 1)
+//@   ensures [unwritten] fwcount == old(fwcount) ==> fwpath == old(fwpath) && fwpageid == old(fwpageid)
 
 //@ func GetActiveMetaPage
 //@   returns (m, id, err)
